@@ -23,7 +23,7 @@
    No bound on the number of shells, their sizes, or p. *)
 From Coq Require Import List Arith Lia Bool Permutation.
 From GB Require Import Base.Field Base.Tables Base.Blocks Model.Shell Model.Assembly Model.Assembly14
-  Model.Overlap Model.OneBody Proofs.AssemblyP Proofs.OverlapP.
+  Model.Overlap Model.TwoElec Model.OneBody Proofs.AssemblyP Proofs.OverlapP.
 Import ListNotations.
 
 (* ------------------------------------------------------------------ *)
@@ -1015,3 +1015,63 @@ Proof.
     exact (sym8_inherit azero (length ss) (B4f mode ss bf) p Hp H8 i j k l Hi Hj Hk Hl).
 Qed.
 End FourSymm.
+
+(* ------------------------------------------------------------------ *)
+(* electron_repulsion_integral (OneBody.eri_integral, chemists' notation, no transform) *)
+(* ------------------------------------------------------------------ *)
+Section Eri.
+Context {F : Type} (K : Fops F).
+Notation R4 := (list (list (list (list F)))).
+
+Definition ess (basis : list (shell F)) : list (@sh F) :=
+  map (fun p => mkSh (s_sph (p_shell p)) (p_T p) (p_norm p)) (map (prep K) basis).
+Definition ebf (basis : list (shell F)) (i j k l : nat) : list (list (list (list R4))) :=
+  let ps := map (prep K) basis in let d := dummy_p K in
+  eri_block K (p_shell (nth i ps d)) (p_shell (nth j ps d)) (p_shell (nth k ps d)) (p_shell (nth l ps d)).
+(* processed (normalised, transformed, merged) block of the shell quartet at positions i j k l *)
+Definition Beri (basis : list (shell F)) : nat -> nat -> nat -> nat -> R4 :=
+  B4f (f0 K) (fadd K) (fmul K) 2 (ess basis) (ebf basis).
+
+Lemma eri_integral_chem basis :
+  eri_integral K basis None false = four_symm (f0 K) (fadd K) (fmul K) 2 (ess basis) (ebf basis).
+Proof. reflexivity. Qed.
+
+Lemma Beri_sel basis ds p a b c d : Forall (fun k => k < length basis) p ->
+  a < length p -> b < length p -> c < length p -> d < length p ->
+  Beri (sel ds p basis) a b c d = Beri basis (nth a p 0) (nth b p 0) (nth c p 0) (nth d p 0).
+Proof.
+  intros Hp Ha Hb Hc Hd.
+  assert (E1 : forall x, x < length p ->
+    nth x (ess (sel ds p basis)) (mkSh false [] []) = nth (nth x p 0) (ess basis) (mkSh false [] [])).
+  { intros x Hx. unfold ess, sel. rewrite !map_map.
+    rewrite (nth_map_lt _ p x 0) by exact Hx.
+    now rewrite (nth_map_lt _ basis (nth x p 0) ds) by (eapply sel_lt; eauto). }
+  assert (E2 : forall x, x < length p ->
+    nth x (map (prep K) (sel ds p basis)) (dummy_p K) = nth (nth x p 0) (map (prep K) basis) (dummy_p K)).
+  { intros x Hx. unfold sel. rewrite !map_map.
+    rewrite (nth_map_lt _ p x 0) by exact Hx.
+    now rewrite (nth_map_lt _ basis (nth x p 0) ds) by (eapply sel_lt; eauto). }
+  unfold Beri, B4f, ebf. cbv zeta. now rewrite !E1, !E2 by assumption.
+Qed.
+
+Theorem eri_integral_perm basis ds r p :
+  shape4 (length basis) r (Beri basis) -> sym8 (f0 K) (length basis) (Beri basis) ->
+  Forall (fun k => k < length basis) p ->
+  forall x1 x2 x3 x4, x1 < length (iperm r p) -> x2 < length (iperm r p) ->
+    x3 < length (iperm r p) -> x4 < length (iperm r p) ->
+  get4 (f0 K) (eri_integral K (sel ds p basis) None false) x1 x2 x3 x4
+  = get4 (f0 K) (eri_integral K basis None false)
+      (nth x1 (iperm r p) 0) (nth x2 (iperm r p) 0) (nth x3 (iperm r p) 0) (nth x4 (iperm r p) 0).
+Proof.
+  intros HS H8 Hp x1 x2 x3 x4 H1 H2 H3 H4. rewrite !eri_integral_chem.
+  assert (Ln : length (ess basis) = length basis) by (unfold ess; now rewrite !map_length).
+  assert (Lp : length (ess (sel ds p basis)) = length p) by (unfold ess, sel; now rewrite !map_length).
+  rewrite (four_symm_is_concat (f0 K) (fadd K) (fmul K) 2 (ess basis) (ebf basis)) by (rewrite Ln; exact H8).
+  rewrite four_symm_is_concat.
+  - rewrite Lp, Ln. apply (four_concat_perm (f0 K) (length basis) r); auto.
+    intros a b c d Ha Hb Hc Hd. now apply Beri_sel.
+  - rewrite Lp. intros i j k l Hi Hj Hk Hl. fold (Beri (sel ds p basis)).
+    rewrite !(Beri_sel basis ds p) by assumption.
+    exact (sym8_inherit (f0 K) (length basis) (Beri basis) p Hp H8 i j k l Hi Hj Hk Hl).
+Qed.
+End Eri.
